@@ -161,12 +161,13 @@ def run_problem(ctx, pb, rng, N):
             nolq = False
             if gnl is not None:
                 pn, _, _ = ztest(x2, gnl[k], 2e-4 * (1 + abs(gnl[k])))
-                nolq = pn >= 1e-3
+                # attribution only (the verdict is already made): cannot reject the no-log-q gradient
+                nolq = pn >= 1e-6 and abs(gnl[k] - exact) > max(1e-3, 6 * se2)
             sig = f"C30|op={op}|on=Marginal-guide|field=grad-mean|cond=log-q-term-missing" if nolq else f"C30|op={op}|on={gkind}|field=grad-mean|cond={famname}"
             if not nolq:
                 for name, g in shared.items():
                     ps, _, _ = ztest(x2, g[k], 2e-4 * (1 + abs(g[k])))
-                    if ps >= 1e-3 and abs(g[k] - exact) > 1e-3:
+                    if ps >= 1e-6 and abs(g[k] - exact) > max(1e-3, 6 * se2):
                         sig = f"C30|op={op}|on=two-site-guide|field=grad-mean|cond={name}"
                         break
             ctx.violation(
